@@ -50,9 +50,16 @@ fn wraps<const D: usize>(id: &str, rng: &mut Rng, out: &mut Out, n: usize) {
 }
 
 fn build<const D: usize>(id: &str, rng: &mut Rng, out: &mut Out, periodic: bool) {
+    build_with::<D>(id, rng, out, periodic, false)
+}
+
+/// `fixed`: a fixed, well-spread 7-point set of the unit square scaled to the domain (it builds in
+/// both modes), every point shifted by a fixed number of whole periods per axis, robust kernel:
+/// independent of the random stream
+fn build_with<const D: usize>(id: &str, rng: &mut Rng, out: &mut Out, periodic: bool, fixed: bool) {
     let mut dom = [1.0f64; D];
     for x in dom.iter_mut() { *x = [1.0, 2.0, 4.0, 0.5, 3.0][rng.below(5) as usize]; }
-    let n = D + 3 + rng.below(8) as usize;
+    let n = if fixed { 7 } else { D + 3 + rng.below(8) as usize };
     // distinct points modulo the periods (generated on a 1/16 grid of the box, then shifted by multiples)
     let mut base: Vec<[f64; D]> = Vec::new();
     let mut tries = 0;
@@ -62,10 +69,20 @@ fn build<const D: usize>(id: &str, rng: &mut Rng, out: &mut Out, periodic: bool)
         for a in 0..D { p[a] = dom[a] * (rng.range(0, 15) as f64) / 16.0; }
         if !base.contains(&p) { base.push(p); }
     }
+    if fixed {
+        const BASE: [[f64; 2]; 7] = [[0.125, 0.25], [0.375, 0.6875], [0.6875, 0.3125], [0.1875, 0.875], [0.8125, 0.5625], [0.5, 0.125], [0.3125, 0.5]];
+        base.clear();
+        for b in BASE.iter() { let mut p = [0.0f64; D]; for a in 0..D.min(2) { p[a] = b[a] * dom[a]; } base.push(p); }
+    }
     let mut vs: Vec<Vertex<f64, i32, D>> = Vec::new();
     let mut nearface = false;
     for (i, b) in base.iter().enumerate() {
         let mut p = *b;
+        if fixed {
+            for a in 0..D { p[a] += dom[a] * [0.0, -1.0, 0.0, 1.0, 2.0, -2.0, 3.0][(i + 3 * a) % 7]; }
+            vs.push(Vertex::new_with_uuid(Point::new(p), rng.uuid(), Some(500 + i as i32)));
+            continue;
+        }
         for a in 0..D {
             if rng.chance(1, 2) { p[a] += dom[a] * (rng.range(-3, 3) as f64); }
         }
@@ -148,12 +165,58 @@ fn build<const D: usize>(id: &str, rng: &mut Rng, out: &mut Out, periodic: bool)
     out.end();
 }
 
+/// the periodic mode on a fixed, well-spread 7-point set scaled to the domain, every input shifted
+/// by whole periods, ROBUST kernel (the fast kernel refuses most periodic inputs): a build that does
+/// not depend on the random stream, so that "inputs outside the box are wrapped first" is always
+/// exercised
+fn periodic_fixed_robust(id: &str, dom: [f64; 2], rng: &mut Rng, out: &mut Out) {
+    use delaunay::geometry::kernel::RobustKernel;
+    const BASE: [[f64; 2]; 7] = [[0.125, 0.25], [0.375, 0.6875], [0.6875, 0.3125], [0.1875, 0.875], [0.8125, 0.5625], [0.5, 0.125], [0.3125, 0.5]];
+    let mut vs: Vec<Vertex<f64, i32, 2>> = Vec::new();
+    for (i, b) in BASE.iter().enumerate() {
+        let mut p = [b[0] * dom[0], b[1] * dom[1]];
+        for a in 0..2 { p[a] += dom[a] * [0.0, -1.0, 0.0, 1.0, 2.0, -2.0, 3.0][(i + 3 * a) % 7]; }
+        vs.push(Vertex::new_with_uuid(Point::new(p), rng.uuid(), Some(500 + i as i32)));
+    }
+    let r = catch(|| DelaunayTriangulationBuilder::from_vertices(&vs).toroidal_periodic(dom)
+        .build_with_kernel::<RobustKernel<f64>, i32>(&RobustKernel::new()).map_err(|e| tri::err_kind(&format!("{e:?}"))));
+    let mut ids = Ids::default();
+    out.case(id, "torus", "D=2 periodic=1 expect=none sphere=1 prov=0 nearface=0 fixed=1");
+    out.line(&format!("dom {}", hxs(&dom)));
+    for (i, v) in vs.iter().enumerate() {
+        let vid = ids.id(v.uuid());
+        out.line(&format!("tin {i} {vid} {} d {}", hxs(v.point().coords()), v.data.unwrap_or(0)));
+    }
+    match r {
+        Err(m) => out.obs("result", &format!("panic:{m}")),
+        Ok(Err(e)) => out.obs("result", &format!("err {e}")),
+        Ok(Ok(dt)) => {
+            out.obs("result", "ok");
+            tri::export(&dt, &mut ids, out);
+            out.obs("nverts", &dt.number_of_vertices().to_string());
+            out.obs("tds_is_valid", &match catch(|| dt.tds().is_valid()) { Ok(Ok(())) => "ok".into(), Ok(Err(e)) => format!("err {}", tri::err_kind(&format!("{e:?}"))), Err(m) => format!("panic:{m}") });
+            out.obs("nbfacets", &dt.boundary_facets().count().to_string());
+            if let Ok(Ok(fv)) = catch(|| delaunay::topology::characteristics::euler::count_simplices(dt.tds())) {
+                out.obs("chi", &delaunay::topology::characteristics::euler::euler_characteristic(&fv).to_string());
+            }
+        }
+    }
+    out.end();
+}
+
 pub fn run(cfg: &Cfg, rng: &mut Rng, out: &mut Out) {
+    for (i, dom) in [[1.0f64, 1.0], [2.0, 2.0], [4.0, 3.0], [0.5, 1.0]].iter().enumerate() {
+        periodic_fixed_robust(&format!("pr2_{i}"), *dom, rng, out);
+    }
     let thorough = cfg.tier == "thorough";
     let nw = if thorough { 400 } else { 160 };
     for i in 0..(if thorough { 40 } else { 8 }) {
         wraps::<2>(&format!("w2_{i}"), rng, out, nw);
         wraps::<3>(&format!("w3_{i}"), rng, out, nw);
+    }
+    for i in 0..(if thorough { 8 } else { 4 }) {
+        build_with::<2>(&format!("tf2_{i}"), rng, out, false, true);
+        build_with::<2>(&format!("pf2_{i}"), rng, out, true, true);
     }
     let nb = if thorough { 200 } else { 72 };
     for i in 0..nb {
